@@ -249,11 +249,25 @@ func (g *genState) step() bool {
 // GenDirected builds programs aimed at internal boundaries that random DAGs
 // rarely reach: kind 0 = a Flatmap over a ReaderFunc that returns its last rows
 // together with EOF, sized so that expansions straddle the 128-row vector;
+// kind 2 = a Reduce over hundreds of distinct keys per partition (combining tables grow and rehash);
 // kind 1 = a two-input Cogroup whose inputs have more than 128 rows per shard
 // and interleaved, different key sets (buffer refills in the middle of the merge).
 func GenDirected(r *vf.Rand, kind int) Prog {
 	var p Prog
-	switch kind % 2 {
+	switch kind % 3 {
+	case 2:
+		// many distinct keys per partition: combining tables grow (and rehash) several times
+		rows := r.Pick([]int{400, 700, 1300})
+		keys := int64(r.Pick([]int{150, 300, 600, 1200}))
+		cols := [][]int64{make([]int64, rows), make([]int64, rows)}
+		for i := 0; i < rows; i++ {
+			cols[0][i], cols[1][i] = mod(int64(i)*7, keys), int64(1+i%5)
+		}
+		p.Nodes = append(p.Nodes, Node{Op: "const", N: r.Range(2, 6), Types: []Col{"i", "i"}, Cols: cols})
+		if r.Bool() {
+			p.Nodes = append(p.Nodes, Node{Op: "reshard", In: []int{0}, N: r.Range(1, 2)})
+		}
+		p.Nodes = append(p.Nodes, Node{Op: "reduce", In: []int{len(p.Nodes) - 1}, Comb: "sum"})
 	case 0:
 		// pick the row count so that, in shard 0, the expansion of the LAST input row
 		// straddles a multiple of the 128-row vector
